@@ -62,8 +62,26 @@ inline void on_signal(int)
     _exit(99);
 }
 
+inline void on_alarm(int)
+{
+    auto& t = trap();
+    if(t.armed)
+    {
+        t.faulted = 1;
+        siglongjmp(t.jb, 3);
+    }
+    _exit(96);
+}
+
 inline void install_signal_handlers()
 {
+    {
+        struct sigaction sa;
+        std::memset(&sa, 0, sizeof(sa));
+        sa.sa_handler = on_alarm;
+        sa.sa_flags = SA_NODEFER;
+        sigaction(SIGALRM, &sa, nullptr);
+    }
     struct sigaction sa;
     std::memset(&sa, 0, sizeof(sa));
     sa.sa_handler = on_signal;
@@ -72,9 +90,10 @@ inline void install_signal_handlers()
     sigaction(SIGBUS, &sa, nullptr);
 }
 
-// run f(); returns 0 = ok, 1 = assertion handler invoked, 2 = memory fault
+// run f(); returns 0 = ok, 1 = assertion handler invoked, 2 = memory fault,
+// 3 = watchdog (the call did not return within `seconds`)
 template<typename F>
-int guarded(F&& f)
+int guarded(F&& f, unsigned seconds = 0)
 {
     auto& t = trap();
     t.asserted = 0;
@@ -83,8 +102,12 @@ int guarded(F&& f)
     int r = sigsetjmp(t.jb, 1);
     if(r == 0)
     {
+        if(seconds)
+            alarm(seconds);
         f();
     }
+    if(seconds)
+        alarm(0);
     t.armed = 0;
     return r;
 }
